@@ -223,3 +223,30 @@ def session_mixed(rng: random.Random, depth: int) -> str:
     for _ in range(depth):
         ops.append(config_op(rng) if rng.random() < 0.4 else traffic_op(rng))
     return f"rf 1 {1 if plus else 0} " + " ; ".join(ops)
+
+
+DFLT_FORMS_LITE = ["send {buf}", "write {buf}", "resend", "read", "fifo", "clear_status_flags", "interrupt_config"]
+DFLT_FORMS = DFLT_FORMS_LITE + ["set_dynamic_payloads {b}", "get_dynamic_payloads", "set_payload_length {n}", "get_payload_length",
+                                "address"]
+
+
+def defaults_session(rng: random.Random, cls="rf24", cfg_op=None) -> str:
+    """calls that leave every optional parameter at its default (`dflt …`), between ordinary configuration calls,
+    with payloads injected so that read()/fifo() have something to report"""
+    lite = cls == "lite"
+    ops = [f"new a {cls} 0"] + ([] if lite else ["a enter"])
+    for _ in range(rng.randint(6, 18)):
+        x = rng.random()
+        if x < 0.25:
+            op = cfg_op(rng, "a") if cfg_op else config_op(rng, "a", lite=lite)
+            if "carrier_wave" not in op:
+                ops.append(op)
+        elif x < 0.37:
+            ops.append(f"env inject 0 {rng.randint(0, 5)} {rbytes(rng, rng.randint(1, 32))}")
+        elif x < 0.45:
+            ops.append(f"a set listen {rng.choice('TF')}")
+        else:
+            f = rng.choice(DFLT_FORMS_LITE if lite else DFLT_FORMS)
+            ops.append("a dflt " + f.format(buf=rng.choice("im") + ":" + rbytes(rng, rng.randint(1, 32)), b=rng.choice("TF"),
+                                            n=rng.randint(1, 32)))
+    return "rf 1 1 " + " ; ".join(ops)
